@@ -136,6 +136,17 @@ def run_shard(acc, shard, nshards, seed, tier):
         probe = draw(call(probe=True))
         n = draw(st.sampled_from([1, 2, 1, 2, 3, 0] + ([4] if tier == 'thorough' else [])))
         earlier = []
+        if n and draw(st.integers(0, 5)) == 0:
+            # directed shape: a probe WITHOUT warm-up candles whose decisions read the indicator window, after a session that had some
+            probe['cfg']['warm_up'] = 0
+            probe['warmup'] = None
+            for sc in probe['scripts'].values():
+                sc['gate'] = 'obv'
+            c = draw(call().filter(lambda c_: c_['cfg']['warm_up'] > 0))
+            for sc in c['scripts'].values():
+                sc['gate'] = 'obv'
+            earlier.append(c)
+            n -= 1
         for _ in range(n):
             style = draw(st.sampled_from(['fresh', 'fresh', 'same-name-other-config', 'identical', 'same-strategy-other-candles']))
             if style == 'identical':
